@@ -39,7 +39,7 @@ def corr(ctx, binary, n):
     for old in glob.glob(os.path.join(ctx.dir, "r2_*.v")) + glob.glob(os.path.join(ctx.dir, "cert_r2_*.v")):
         os.remove(old)
     rc, out = vlib.run_harness(ctx, binary, n, extra=CORPUS)
-    n2 = 40 if ctx.tier == "quick" else 400
+    n2 = 20 if ctx.tier == "quick" else 400
     rc2, out2 = vlib.run_harness(ctx, binary, n2, extra="round2:" + CORPUS2)
     if rc != 0 or rc2 != 0:
         ctx.violation({"obligation": "C16 harness run", "log": (out if rc != 0 else out2)[-3000:]}, False,
